@@ -10,6 +10,7 @@ import Rink.Driver.Load
 def main (args : List String) : IO UInt32 := do
   match args with
   | ["alloc"] => Rink.Driver.Alloc.main; return 0
+  | ["loadt", path] => Rink.Driver.Load.loadtMain path; return 0
   | "load" :: rest => Rink.Driver.Load.loadMain rest; return 0
   | ["defs", path] => Rink.Driver.Load.defsMain path; return 0
   | ["cache"] => Rink.Driver.Cache.main; return 0
